@@ -24,12 +24,12 @@ def main():
             first = open(np_).readline().strip().lstrip("# ")
             m["title"] = re.sub(r"^C\d+-[ab]\d\s*[-:—–]*\s*", "", first)
         rows[name] = m
-    print("| property | batch a (3 each) | batch b (2 each) |")
-    print("|---|---|---|")
-    tot = {"a": [0, 0], "b": [0, 0]}
+    print("| property | batch a (3 each) | batch b (2 each) | batch c (2 each) |")
+    print("|---|---|---|---|")
+    tot = {"a": [0, 0], "b": [0, 0], "c": [0, 0]}
     for i in range(1, 21):
         p = "C%02d" % i
-        cells = {"a": [], "b": []}
+        cells = {"a": [], "b": [], "c": []}
         for name, m in rows.items():
             if not name.startswith(p + "-"):
                 continue
@@ -41,9 +41,9 @@ def main():
                 cells[batch].append("%s ✓ %s" % (name.split("-")[1], short(det[0])))
             else:
                 cells[batch].append("%s ✗ %s" % (name.split("-")[1], (m.get("summary") or m.get("title") or "")[:60]))
-        print("| %s | %s | %s |" % (p, "<br>".join(cells["a"]), "<br>".join(cells["b"])))
+        print("| %s | %s | %s | %s |" % (p, "<br>".join(cells["a"]), "<br>".join(cells["b"]), "<br>".join(cells["c"])))
     print()
-    print("batch a: %d of %d reported; batch b: %d of %d reported" % (tot["a"][0], tot["a"][1], tot["b"][0], tot["b"][1]))
+    print("batch a: %d of %d reported; batch b: %d of %d reported; batch c: %d of %d reported" % (tot["a"][0], tot["a"][1], tot["b"][0], tot["b"][1], tot["c"][0], tot["c"][1]))
     for kind in ("reverts", "refactors"):
         rp = os.path.join(VERIF, "selftest", "results", kind + ".json")
         if os.path.exists(rp):
